@@ -1,0 +1,10 @@
+//go:build verif
+
+// Contracts for the gowp verifier (/verif): comment-only file, compiled only with -tags verif.
+package crypto
+
+// IANA Kerberos encryption type numbers -> implementations (et_id is the table in /verif/spec/etype.smt2).
+//@ func crypto.GetEtype(id) (et, err)
+//@   pure
+//@   ensures err == nil <==> id == 16 || id == 17 || id == 18 || id == 19 || id == 20 || id == 23
+//@   ensures err == nil ==> et_known(tagof(et)) && et_id(tagof(et)) == id
